@@ -31,6 +31,7 @@ def real_model(repo):
     it.max_steps = 3_000_000
     it.eager_generators.add(f'{CIRCUIT}.top_sort')
     it.eager_generators.add(f'{CIRCUIT}._traverse_circuit')
+    it.executed = {}
     return M
 
 
